@@ -115,7 +115,7 @@ add("C12", "exploration",
     "websockets.Proxy in-process under -race; a state-machine model of the session table yields the allowed status set per call; every "
     "call must be answered (a panic is caught per call, an unanswered call after 15 s is a wedge); a new session id must differ from the id of every session still open; the backend must observe client closes, "
     "and polls after a backend close must deliver the queued messages and then 400. Interleavings inside a group are sampled (hundreds of "
-    "groups per run), not enumerated. One fixed scenario runs in the background of every run: an open call whose backend takes the upgrade request and never answers it must be answered within 60 s while other opens go on.",
+    "groups per run), not enumerated. One fixed scenario runs in the background of every run: an open call whose backend takes the upgrade request and never answers it must be answered within 100 s (the backend stays silent for 150 s) while other opens go on.",
     "Polls are only issued when a message or a close is pending (the 20 s / 408 path is sampled once in the thorough tier). For calls racing "
     "a close, or following an asynchronous backend close, the allowed set is {200,400}; once the closing handshake of a backend close has completed a data post must be answered 400.",
     "stateful property-based testing (rapid): generated call histories and barrier-released concurrent groups against a session-table model", "3/C12")
